@@ -163,3 +163,46 @@ func VP_C18_fat12_file_read_512_512()  { c18FileRead(512, 512) }
 func VP_C18_fat12_file_read_512_100()  { c18FileRead(512, 100) }
 func VP_C18_fat12_file_read_512_1200() { c18FileRead(512, 1200) }
 func VP_C18_fat12_file_read_0_512()    { c18FileRead(0, 512) }
+
+// VP_C18_fat12_readdir_chain: readDirectory of a cluster-chain directory (FAT32 root, any subdirectory):
+// arbitrary forward-linked FAT, clusters of 32 bytes (one slot each), arbitrary directory bytes on the image.
+func VP_C18_fat12_readdir_chain() {
+	n := vp.Bound("dclusters", 4, 5)
+	fs, t := c18Fs(n, 32)
+	for i := 2; i <= n; i++ {
+		v := t.clusters[i]
+		vp.Assume(v == 0 || v > uint32(i))
+	}
+	dir := &Directory{directoryEntry: directoryEntry{clusterLocation: vp.U32("first"), isSubdirectory: true, filesystem: fs}}
+	vp.Unwind(20)
+	vp.MaxLoop(14) // 13 characters per long-name slot
+	vp.AllocCap(32 * n)
+	vp.AllocLimit(uint64(32*n + c18Slack))
+	vp.NoPanic()
+	ents, err := fs.readDirectory(dir)
+	vp.AllowPanic()
+	if err == nil {
+		vp.Assert(len(ents) <= n-1, "no more entries than slots in the chain")
+		vp.Cover("directory read")
+	} else {
+		vp.Cover("directory refused")
+	}
+}
+
+// VP_C18_fat12_readdir_root: readDirectory of the fixed FAT12/16 root region (2 slots).
+func VP_C18_fat12_readdir_root() {
+	fs, _ := c18Fs(3, 512)
+	fs.rootDirMaxEntries = 2
+	fs.rootDirOffset = 1024
+	dir := &Directory{directoryEntry: directoryEntry{clusterLocation: 0, isSubdirectory: true, filesystem: fs}}
+	vp.Unwind(20)
+	vp.MaxLoop(14)
+	vp.NoPanic()
+	ents, err := fs.readDirectory(dir)
+	vp.AllowPanic()
+	if err == nil {
+		vp.Assert(len(ents) <= 2, "no more entries than root slots")
+		vp.Cover("root read")
+	}
+	vp.Cover("done")
+}
